@@ -453,10 +453,11 @@ pub fn finish(ctx: &Ctx, mut rep: Report, level_text: &str) -> Outcome {
     for m in &rep.machinery_errors {
         eprintln!("MACHINERY: {}", m);
     }
-    let exit = if !rep.machinery_errors.is_empty() {
-        2
-    } else if !unlisted.is_empty() {
+    // a violation demonstrated on the real code stands even if the exploration was cut short afterwards
+    let exit = if !unlisted.is_empty() {
         1
+    } else if !rep.machinery_errors.is_empty() {
+        2
     } else {
         0
     };
